@@ -170,7 +170,7 @@ def throttle_case(sc: dict[str, Any]) -> dict[str, Any]:
                 return Plan(fault=Fault('status', code=500))
             return None
         sim.srv.policy = policy
-        settings = sim.settings(queueing__error_delays=list(sc['delays']), networking__error_backoffs=[])
+        settings = sim.settings(queueing__error_delays=list(sc['delays']), networking__error_backoffs=list(sc.get('ebackoffs', [])))
         op = sim.operator('op1', reg, settings)
         gone_at = sc.get('a_gone_at')
         sim.world.at(1, lambda: sim.create('a', {'x': 0}, **({'metadata': {'finalizers': ['other/x']}} if gone_at else {})), 1)
@@ -213,6 +213,9 @@ def throttle_scenarios(seed: int, n: int) -> list[dict[str, Any]]:
         b_edits = sorted(rnd.sample(range(2, 40), rnd.randint(1, 5)))
         out.append({'id': f'throttle-{seed}-{i}', 'mode': rnd.choice(['when', 'when', 'patch']), 'delays': delays, 'errors': errors,
                     'a_edits': a_edits, 'b_edits': b_edits, 'end': 60})
+        if i % 4 == 1:      # the failing cycle takes time before its error escalates (the PATCH is retried first): the pause counts from the failure
+            r3 = random.Random(f'throttle-slow-{seed}-{i}')
+            out[-1].update(mode='patch', ebackoffs=r3.choice([[1], [1, 1], [2]]))
         if i % 5 == 2:      # A disappears (marked for deletion, then released) in the middle of its error pause, and processing fails again
             r2 = random.Random(f'throttle-gone-{seed}-{i}')
             d0 = r2.choice([3, 4, 6])
